@@ -270,12 +270,26 @@ def cmpFloatStr (f : Nat) (s : String) : Option Ordering :=
   | some fs => partialCmp f fs
   | none => some .lt
 
+/-- the exact value of a double, times 2^1074 (an integer for every finite pattern; infinities sit
+above all finite values) -/
+def scaledMag (b : Nat) : Nat :=
+  if expField b = 0 then fracField b else (2 ^ 52 + fracField b) * 2 ^ (expField b - 1)
+
+def scaledF (b : Nat) : Int := if fNeg b then -(scaledMag b : Int) else (scaledMag b : Int)
+
+def revOrdering : Ordering → Ordering
+  | .lt => .gt | .gt => .lt | .eq => .eq
+
+/-- `compare_int_float`: an integer against a float by their exact values (no answer for NaN) -/
+def cmpIntFloat (i : Int) (f : Nat) : Option Ordering :=
+  if isNaN f then none else some (compare (i * 2 ^ 1074) (scaledF f))
+
 def cmpAgg (a b : Val) : Option Ordering :=
   match a, b with
   | .int x, .int y => some (compare x y)
   | .float x, .float y => partialCmp x y
-  | .int x, .float y => partialCmp (ofInt x) y          -- `(*a as f64).partial_cmp(b)`
-  | .float x, .int y => partialCmp x (ofInt y)
+  | .int x, .float y => cmpIntFloat x y
+  | .float x, .int y => (cmpIntFloat y x).map revOrdering
   | .str x, .str y => cmpStrStr x y
   | .str s, .int i => cmpStrInt s i
   | .int i, .str s => cmpIntStr i s
@@ -451,13 +465,6 @@ def intOf : Val → Int
   | _ => 0
 
 def intSum (vs : List Val) : Int := (vs.map intOf).foldl (· + ·) 0
-
-/-- the exact value of a double, times 2^1074 (an integer for every finite pattern; infinities sit
-above all finite values) -/
-def scaledMag (b : Nat) : Nat :=
-  if expField b = 0 then fracField b else (2 ^ 52 + fracField b) * 2 ^ (expField b - 1)
-
-def scaledF (b : Nat) : Int := if fNeg b then -(scaledMag b : Int) else (scaledMag b : Int)
 
 def isFloat : Val → Bool
   | .float _ => true
